@@ -31,7 +31,9 @@ vars == <<i, tid, S, base>>
 
 UnconfOf(e) == [j \in 1..Len(e.unconf) |-> [step |-> e.unconf[j].step, inv |-> e.unconf[j].inv]]
 (* the observed state of the acting client *)
-Observed(e) == [doc |-> Docs[e.doc], version |-> e.version, unconf |-> UnconfOf(e)]
+Observed(e) == [doc |-> Snap(Docs[e.doc], e.ra), version |-> e.version, unconf |-> UnconfOf(e)]
+AuthSnap(e) == Snap(Docs[e.auth], e.authra)
+ConfirmedSnap(e) == Snap(Docs[e.confirmed], e.confirmedra)
 
 VEdit(e) ==
   LET r == EditRes(S, e.c, e.step) IN
@@ -47,21 +49,21 @@ VSend(e) ==
   LET exact == ~MarkPendingIn(S.cl[e.c].unconf) IN
   IF ~CanSend(S, e.c) THEN "bad:TraceOrder"
   ELSE IF e.res.kind # "ok" THEN (IF exact THEN "bad:AuthorityRejected" ELSE "skip:MarkPending")
-  ELSE IF ~AgreeUpTo(exact, Docs[e.auth], S.cl[e.c].doc) THEN "bad:AuthReplays"
+  ELSE IF ~AgreeUpTo(exact, AuthSnap(e), S.cl[e.c].doc) THEN "bad:AuthReplays"
   ELSE IF ~Valid(Docs[e.auth]) THEN "bad:Invalid"
   ELSE LET r == SendRes(S, e.c) IN
-       IF ~r.ok \/ r.S.auth.doc # Docs[e.auth] THEN "drift:Send" ELSE "ok"
+       IF ~r.ok \/ r.S.auth.doc # AuthSnap(e) THEN "drift:Send" ELSE "ok"
 VReceive(e) ==
   LET exact == ~MarkPendingIn(S.cl[e.c].unconf) IN
   IF ~CanReceive(S, e.c) THEN "bad:TraceOrder"
   ELSE IF e.res.kind # "ok" THEN (IF exact THEN "bad:RebaseRaised" ELSE "skip:MarkPending")
-  ELSE IF ~AgreeUpTo(exact, Docs[e.confirmed], S.auth.doc) THEN "bad:ConfirmedAgree"
+  ELSE IF ~AgreeUpTo(exact, ConfirmedSnap(e), S.auth.doc) THEN "bad:ConfirmedAgree"
   ELSE IF ~(Valid(Docs[e.doc]) /\ Canon(Docs[e.doc])) THEN "bad:Invalid"
-  ELSE IF e.unconf = <<>> /\ ~AgreeUpTo(exact, Docs[e.doc], S.auth.doc) THEN "bad:Converged"
+  ELSE IF e.unconf = <<>> /\ ~AgreeUpTo(exact, Snap(Docs[e.doc], e.ra), S.auth.doc) THEN "bad:Converged"
   ELSE IF e.version # Len(S.auth.steps) THEN "bad:Version"
   ELSE LET r == ReceiveRes(S, e.c) IN
        IF ~r.ok THEN "drift:RebaseStuck"
-       ELSE IF r.S.cl[e.c].doc # Docs[e.doc] THEN "drift:RebaseDoc"
+       ELSE IF r.S.cl[e.c].doc # Snap(Docs[e.doc], e.ra) THEN "drift:RebaseDoc"
        ELSE IF r.S.cl[e.c] # Observed(e) THEN "drift:RebaseSteps"
        ELSE "ok"
 
@@ -70,15 +72,15 @@ Follow(e) ==
   IF e.a = "edit" THEN (IF e.res.kind = "ok" THEN [S EXCEPT !.cl[e.c] = Observed(e)] ELSE S)
   ELSE IF e.a = "send" THEN
        (IF e.res.kind # "ok" THEN S
-        ELSE [auth |-> [doc |-> Docs[e.auth], steps |-> S.auth.steps \o StepsOf(S.cl[e.c].unconf),
+        ELSE [auth |-> [doc |-> AuthSnap(e), steps |-> S.auth.steps \o StepsOf(S.cl[e.c].unconf),
                         by |-> S.auth.by \o [j \in 1..Len(S.cl[e.c].unconf) |-> e.c]],
               cl |-> [S.cl EXCEPT ![e.c] = Observed(e)]])
   ELSE (IF e.res.kind = "ok" THEN [S EXCEPT !.cl[e.c] = Observed(e)] ELSE S)
 
 TBegin(e) ==
   /\ tid' = e.tid
-  /\ base' = Docs[e.base]
-  /\ S' = InitState(Docs[e.base], 1..e.n)
+  /\ base' = Snap(Docs[e.base], e.ra)
+  /\ S' = InitState(Snap(Docs[e.base], e.ra), 1..e.n)
   /\ PrintT(<<"V", e.id, IF Valid(Docs[e.base]) /\ Canon(Docs[e.base]) THEN "ok" ELSE "skip:pre">>)
 TAct(e) ==
   /\ tid' = tid /\ base' = base
@@ -86,7 +88,7 @@ TAct(e) ==
                          ELSE IF e.a = "edit" THEN VEdit(e)
                          ELSE IF e.a = "send" THEN VSend(e) ELSE VReceive(e)>>)
   /\ S' = Follow(e)
-Init == i = 0 /\ tid = -1 /\ base = <<>> /\ S = [auth |-> [doc |-> <<>>, steps |-> <<>>, by |-> <<>>], cl |-> <<>>]
+Init == i = 0 /\ tid = -1 /\ base = Snap(<<>>, <<>>) /\ S = [auth |-> [doc |-> Snap(<<>>, <<>>), steps |-> <<>>, by |-> <<>>], cl |-> <<>>]
 Next == /\ i < Len(Events)
         /\ i' = i + 1
         /\ LET e == Events[i + 1] IN IF e.ev = "Begin" THEN TBegin(e) ELSE TAct(e)
